@@ -29,6 +29,7 @@ struct TClass
     bool initByName = false; // state initialised through the name of a constant
     bool initialises = false; // constant whose name initialises a state
     bool reader = false; // added by the harness: reads an NLA unknown (directly or through another reader)
+    bool added = false; // added by an explorer shape: never the target of a constraint variant
     std::vector<int> deps; // classes the defining expression reads
     int system = -1;
 };
@@ -44,6 +45,8 @@ struct TM
     std::vector<std::vector<int>> systems; // unknown classes per NLA system
     std::string type; // expected AnalyserModel type
     int voi = -1;
+    std::string shape; // explorer shape added to the base model ("" = none), used as a localisation token
+    unsigned commentSeed = 0; // != 0: XML comments are written into the math (serialisation dimension)
 
     int instanceIn(int cls, size_t comp) const; // variable index of the instance of cls in comp, -1 if none
     int homeComp(int cls) const; // component holding the defining equation(s) of cls, -1 if none
@@ -59,6 +62,21 @@ void rebuildMath(TM &m);
 // ---- generator extensions (applied to the base model before it is judged)
 bool moveInitialValues(TM &m, Src &src); // put the initial value of a constant / state / guessed unknown on another instance
 bool addNlaReaders(TM &m, Src &src); // x = f(u), y = g(x) for an NLA unknown u
+// shapes found by independent exploration: 1 a variable that reads a rate (x = dv/dt) and an ODE using it, 2 a single
+// unknown without guess solved from another NLA unknown / state (block-triangular) and a reader of it, 3 a sparse square
+// NLA system with guesses (x+y, y+z, z+x), 4 a system mixing guessed and unguessed unknowns, 5 x = 2x - 3
+enum Shape
+{
+    S_NONE = 0,
+    S_RATE_READER,
+    S_DOWNSTREAM_NLA,
+    S_SPARSE_NLA,
+    S_MIXED_GUESS_NLA,
+    S_SELF_REFERENCE,
+    S_COUNT
+};
+const char *shapeName(int s);
+bool addShape(TM &m, int shape, Src &src);
 
 // ---- metamorphic transformations
 enum Transform
@@ -71,6 +89,7 @@ enum Transform
     T_RENAME_COMPONENTS,
     T_RENAME_UNITS,
     T_RENAME_VARIABLES,
+    T_COMMENTS, // XML comments inside the math (before operators, inside ci / cn, between equations)
     T_COUNT
 };
 const char *transformName(int t);
@@ -93,6 +112,7 @@ enum Variant
     V_SECOND_ORDER,
     V_UNUSED_VARIABLE,
     V_EXTRA_NLA_EQUATION,
+    V_COUPLED_RATES, // dx/dt + dy/dt = 1, dx/dt - dy/dt = 0: no equation can be solved for one rate
     V_COUNT
 };
 const char *variantName(int v);
